@@ -8,7 +8,17 @@ import (
 	"ivgsa/internal/sym"
 )
 
-func init() { register("C01", ruleC01_6) }
+func init() { register("C01", ruleC01_6, ruleC01_8) }
+
+// ruleC01_8: the resolution a path is written with (shared with C08.4).
+func ruleC01_8(c *Ctx) {
+	m := c.newEncModel()
+	if !m.ok {
+		return
+	}
+	c.R.Rule("C01.8", "resolution of a path: the bytes StartPath writes (its own start point included) and the flag the rest of the path is quantised with are determined by the public HighResolutionCoordinates field at the time of StartPath, never by the copy an earlier path left; no drawing method changes it", 20)
+	c.checkResolutionLatch(m)
+}
 
 // ruleC01_6: end-of-input agreement between the decoder and the Encoder.
 //
